@@ -48,12 +48,14 @@ def send_sites(repo: Repo) -> list[tuple[FuncInfo, ast.Call, object, ast.AST | N
         for c in repo.calls_in(fi):
             if any(t.qualname == f"{GB}.BaseGateway._send" for t in repo.resolve_call(c, fi)):
                 code = repo.fold_in(c.args[0], fi) if c.args else UNKNOWN
-                if code is UNKNOWN and c.args and isinstance(c.args[0], ast.Name):
-                    # msgcode chosen by a preceding if/else (Channel.__del__)
+                if code is UNKNOWN and c.args and isinstance(c.args[0], (ast.Name, ast.IfExp)):
+                    # msgcode chosen by a preceding if/else or a conditional expression (Channel.__del__)
                     vals = set()
-                    for n in repo.own_nodes(fi):
-                        if isinstance(n, ast.Assign) and unparse(n.targets[0]) == c.args[0].id:
-                            vals.add(repo.fold_in(n.value, fi))
+                    exprs = [c.args[0]] if isinstance(c.args[0], ast.IfExp) else [n.value for n in repo.own_nodes(fi)
+                                                                                 if isinstance(n, ast.Assign) and unparse(n.targets[0]) == c.args[0].id]
+                    for e in exprs:
+                        for b in ([e.body, e.orelse] if isinstance(e, ast.IfExp) else [e]):
+                            vals.add(repo.fold_in(b, fi))
                     code = tuple(sorted(vals, key=repr)) if vals and UNKNOWN not in vals else UNKNOWN
                 out.append((fi, c, code, arg(c, 2, "data")))
     return out
@@ -81,6 +83,11 @@ def receiver_context(repo: Repo) -> set[str]:
     return seen
 
 
+def _xt(repo: Repo, fi: FuncInfo, e: ast.AST) -> str:
+    from ..util import xtext
+    return xtext(repo, fi, e)
+
+
 def callback_invocations(repo: Repo) -> list[tuple[FuncInfo, ast.Call, str]]:
     """calls of a user-supplied channel callback: (function, call, origin)"""
     out = []
@@ -92,7 +99,7 @@ def callback_invocations(repo: Repo) -> list[tuple[FuncInfo, ast.Call, str]]:
             if p == "callback":
                 names[p] = "parameter"
         for n in repo.own_nodes(fi):
-            if isinstance(n, ast.Assign) and isinstance(n.targets[0], ast.Tuple) and ("_callbacks" in unparse(n.value) or unparse(n.value) == "item"):
+            if isinstance(n, ast.Assign) and isinstance(n.targets[0], ast.Tuple) and ("_callbacks" in _xt(repo, fi, n.value) or unparse(n.value) == "item"):
                 first = n.targets[0].elts[0]
                 if isinstance(first, ast.Name):
                     names[first.id] = "_callbacks entry"
